@@ -534,6 +534,8 @@ def option_tests(fn, locals_of_interest=None):
                             kind = "Option"
                         elif tys.startswith("core::result::Result<"):
                             kind = "Result"
+                        elif tys.startswith("core::ops::control_flow::ControlFlow<"):
+                            kind = "Flow"          # 0 = Continue (the Ok/Some side of `?`), 1 = Break
                         else:
                             continue
                         v1 = tg.get(1, oth if (1 not in tg and len(tg) == 1) else None)
@@ -628,3 +630,30 @@ def edge_implies_call(fn, sb, tb, call, want=True):
                 if edge_dominates(fn, s, tt if want else ft, f_[1]):
                     return True
     return False
+
+
+def result_blocks(fn, variant="Ok"):
+    """blocks in which the function's own Result/Option return value is built as `variant(..)`: an aggregate of that variant
+    assigned to the return place, or to a temporary that flows into it (through moves, `?` re-wrapping, an inlined helper's landing)"""
+    cached = getattr(fn, "_result_blocks", None)
+    if cached is None:
+        cached = fn._result_blocks = {}
+    if variant in cached:
+        return cached[variant]
+    out = []
+    for b in fn.reachable:
+        for st in fn.stmts(b):
+            if st["k"] != "assign" or st["rv"]["k"] != "agg" or st["rv"].get("variant") != variant:
+                continue
+            if not str(st["rv"].get("def", "")).endswith(("result::Result", "option::Option")):
+                continue
+            l = st["lhs"][0]
+            if l == 0 and len(st["lhs"]) == 1:
+                out.append(b)
+                continue
+            if len(st["lhs"]) == 1:
+                tracked, _ = flow_forward(fn, [l], [])
+                if 0 in tracked:
+                    out.append(b)
+    cached[variant] = out
+    return out
